@@ -12,7 +12,8 @@
 (***************************************************************************)
 EXTENDS Integers, Sequences, TLC, Json
 CONSTANTS MaxLen,        \* longest pipeline
-          Chunkings,     \* subset of {"whole", "perreq", "bytes", "allsplits"}
+          Chunkings,     \* subset of {"whole", "perreq", "bytes", "allsplits", "nextsplits"}; nextsplits = a chunk that holds
+                         \* some complete requests and a proper prefix of the next one (pipelines of 2 or 3 requests)
           SplitMaxLen    \* "allsplits" only for pipelines up to this length
 VARIABLES pipe, rp, chk, ndeliv, nrep, quit, closed, auth
 vars == <<pipe, rp, chk, ndeliv, nrep, quit, closed, auth>>
@@ -26,6 +27,7 @@ Init == /\ rp \in BOOLEAN
         /\ pipe \in Pipes(IF rp THEN KindsPass ELSE KindsOpen)
         /\ chk \in Chunkings
         /\ (chk = "allsplits" => Len(pipe) <= SplitMaxLen)
+        /\ (chk = "nextsplits" => Len(pipe) >= 2 /\ Len(pipe) <= SplitMaxLen + 1)
         /\ ndeliv = 0 /\ nrep = 0 /\ quit = FALSE /\ closed = FALSE /\ auth = ~rp
 
 Waiting == ~closed /\ ~quit /\ nrep = ndeliv
